@@ -316,3 +316,28 @@ def copt(x):
 
 def cbool(b):
     return "true" if b else "false"
+
+
+def coqchk_cached(modules, timeout=3000):
+    """independent re-check of the compiled development with coqchk (thorough
+    tier); cached by the hash of the .vo files so that concurrent thorough
+    runs on one tree share a single check"""
+    h = hashlib.sha256()
+    for v in sorted(coq_sources()):
+        vo = os.path.join(COQ, v[:-2] + ".vo")
+        if os.path.exists(vo):
+            h.update(open(vo, "rb").read())
+    key = h.hexdigest()[:16]
+    os.makedirs(WORKROOT, exist_ok=True)
+    cache = os.path.join(WORKROOT, "coqchk-%s.json" % key)
+    with open(os.path.join(WORKROOT, "coqchk.lock"), "w") as lk:
+        fcntl.flock(lk, fcntl.LOCK_EX)
+        if os.path.exists(cache):
+            return json.load(open(cache))
+        t0 = time.time()
+        rc, out = sh(["coqchk", "-silent", "-o", "-Q", COQ, "HV"] + ["HV." + m for m in modules], cwd=COQ, timeout=timeout)
+        m = re.search(r"CONTEXT SUMMARY.*", out, flags=re.S)
+        res = {"ok": rc == 0, "summary": re.sub(r"\s+", " ", m.group(0))[:1500] if m else out[-1500:],
+               "wall_s": round(time.time() - t0, 1), "modules": modules}
+        json.dump(res, open(cache, "w"))
+        return res
